@@ -158,7 +158,7 @@ LENGTH_PRESERVING_DECLARERS = {
 
 @rule(
     "R06d",
-    ["C06"],
+    ["C06", "C01"],
     """LENGTH SHORT-CUTS: `_is_length_preserving` may be True only through the declaring classes confirmed row-count
     preserving (a class of the reference tree that newly carries the flag is reported; brand-new classes are listed as
     unclassified); the base default stays False; Len._simplify_down only passes through frames carrying that flag;
